@@ -124,7 +124,7 @@ pub fn case_history(case: &Value) -> History {
     History::from_json(case)
 }
 
-pub const QUICK_PER_GEN: u32 = 3_000;
+pub const QUICK_PER_GEN: u32 = 6_000;
 pub const THOROUGH_PER_GEN: u32 = 60_000;
 
 pub const CROSS_RULE: &str = " Cross-generator stage: the same judge also runs over histories drawn from the generators of the other history-based properties (shared random histories, C05..C12, C20 and histories decoded from random bytes by the libFuzzer decoder), classes cross:<generator>.";
